@@ -181,6 +181,7 @@ CASES = [
     ("m-c04-313-range-ends", "C04", "fire", "xdis/bytecode.py", "            if opc.version_tuple >= (3, 13):\n                # From 3.13 on dis also labels the two ends of the protected range.\n                labels.append(start)\n                labels.append(end)\n\n    # label_maps", "\n    # label_maps", "exception-entry-components"),
     ("m-c04-312-range-ends", "C04", "fire", "xdis/bytecode.py", "            if opc.version_tuple >= (3, 13):\n                # From 3.13 on dis also labels the two ends of the protected range.\n                labels.append(start)\n                labels.append(end)\n\n    # label_maps", "            if opc.version_tuple >= (3, 12):\n                labels.append(start)\n                labels.append(end)\n\n    # label_maps", "exception-entry-components"),
     ("m-c13-py2-freevars-generic", "C13", "fire", "xdis/marsh.py", "        for names in (x.co_freevars, x.co_cellvars):\n            self._write(TYPE_TUPLE)\n            self.w_long(len(names))\n            for name in names:\n                self.dump_string(name)\n", "        self.dump(x.co_freevars)\n        self.dump(x.co_cellvars)\n", "py2-identifier-fields"),
+    ("m-c17-positions-per-entry", "C17", "fire", "xdis/codetype/code311.py", "            for _ in range(length):\n                yield (start_line, end_line, start_col, end_col)", "            yield (start_line, end_line, start_col, end_col)", "one-tuple-per-code-unit"),
     # ---------------- whole-package reformat, one case per property
     ("s-c01-reformat", "C01", "silent", "*REFORMAT*", "", "", ""),
     ("s-c02-reformat", "C02", "silent", "*REFORMAT*", "", "", ""),
